@@ -10,8 +10,8 @@ import z3
 from pyvc import dsl, extract, solve, sx, externals
 
 REPO = os.environ.get("CORANKCO_REPO", "/repo")
-Z3_MS = int(os.environ.get("PYVC_Z3_MS", "10000"))
-CVC5_MS = int(os.environ.get("PYVC_CVC5_MS", "10000"))
+Z3_MS = int(os.environ.get("PYVC_Z3_MS", "20000"))
+CVC5_MS = int(os.environ.get("PYVC_CVC5_MS", "30000"))
 PRUNED_MS = int(os.environ.get("PYVC_PRUNED_MS", "6000"))     # budget of the first attempt (relevant hypotheses only)
 
 
